@@ -339,6 +339,7 @@ func genMixed(seed uint64, fam string, pf profile) *Scenario {
 // clients are done the anchor bar is finished from a helper goroutine.
 
 func genFor(prop, part string, seed uint64) *Scenario {
+	part = strings.TrimSuffix(part, "-go126") // same family, other toolchain
 	pf := baseProfile
 	switch prop {
 	case "C10":
